@@ -657,7 +657,7 @@ PROPS['C02'] = {
             'oracles: the intended database (KDBX3) and the textbook denotation of (level, id) records (KDB)',
     'partial': ['C02 for KDB was false on the code as found when sibling groups share a name (F11); repaired in /repo, the model follows the repaired code',
                 'the KDB level-driven tree construction is validated against the textbook denotation on generated forests and proved on witnesses; the XML mapping is validated, not proved'],
-    'level_text': 'Kernel-checked: C02_kdbx3_framing — for every primitive family with the laws, configuration, header field order (with comment fields), end payload and block partition, decrypt_kdbx3 returns the stored configuration, '
+    'level_text': 'Kernel-checked: C02_iso_day_count — the day number the ISO 8601 time-stamp parser computes is the proleptic Gregorian day count for every year (0 on 1970-01-01, one more on each next day within a month, across a month end with the month lengths and leap rule, across a year end); C02_kdbx3_framing — for every primitive family with the laws, configuration, header field order (with comment fields), end payload and block partition, decrypt_kdbx3 returns the stored configuration, '
                   'inner key and document; evaluation-level theorems for the KDB level-driven tree construction and entry placement incl. the inputs of finding F11. '
                   'Faithful Lean models of decrypt_kdbx3 and parse_kdb are run against Database::get_xml/parse on every generated file.',
 }
